@@ -14,14 +14,14 @@ import (
 // GenOpts steers the world generator per property (swarm testing: each run
 // additionally draws which features are on).
 type GenOpts struct {
-	FixMTime    bool // mtime fixed via field or SOURCE_DATE_EPOCH, rpm buildhost fixed (C07 precondition)
-	NoSigning   bool // never configure key files
-	ForceSign   bool // always configure key files for deb, rpm, apk
-	Small       bool // small payloads only (C12)
-	SharedBias  bool // bias towards state shared between formats (C11/C12)
-	NoBigFiles  bool
-	AvoidClock  []int64 // unix times to keep every legitimate timestamp away from (±2 days)
-	NoHostLinks bool    // no symlink targets that exist on the build host
+	FixMTime        bool // mtime fixed via field or SOURCE_DATE_EPOCH, rpm buildhost fixed (C07 precondition)
+	NoSigning       bool // never configure key files
+	ForceSign       bool // always configure key files for deb, rpm, apk
+	Small           bool // small payloads only (C12)
+	SharedBias      bool // bias towards state shared between formats (C11/C12)
+	NoBigFiles      bool
+	AvoidClock      []int64 // unix times to keep every legitimate timestamp away from (±2 days)
+	NoHostLinks     bool    // no symlink targets that exist on the build host
 	ManyFilesP      float64 // probability of a tree with hundreds of tiny files (size/count thresholds in compressors)
 	PartialInvalidP float64 // probability that the configuration is invalid for some formats only
 }
@@ -442,7 +442,12 @@ func GenWorldCfg(g *Rng, opt GenOpts) (World, map[string]any) {
 		add(gContent{m: map[string]any{"src": "@SRC@src/exp/e.txt", "dst": "/usr/share/${VERIF_REL}/e.txt", "expand": true}, refPath: "src/exp/e.txt", refKind: "content", single: true})
 	}
 
-	if opt.PartialInvalidP > 0 && x.feat("partial_invalid", opt.PartialInvalidP) {
+	// a meta package: no contents at all (empty payload)
+	if x.feat("no_contents", 0.07) {
+		contents = nil
+		globFirstDst = ""
+	}
+	if len(contents) > 0 && opt.PartialInvalidP > 0 && x.feat("partial_invalid", opt.PartialInvalidP) {
 		kinds := []string{"pkgr_collision", "platform", "rpm_compression"}
 		globIdx := -1
 		for i, c := range contents {
@@ -494,7 +499,9 @@ func GenWorldCfg(g *Rng, opt GenOpts) (World, map[string]any) {
 	for _, c := range contents {
 		base = append(base, c.m)
 	}
-	cfg["contents"] = base
+	if len(base) > 0 {
+		cfg["contents"] = base
+	}
 
 	// ---- scripts ------------------------------------------------------------
 	type scriptRef struct {
@@ -590,7 +597,12 @@ func GenWorldCfg(g *Rng, opt GenOpts) (World, map[string]any) {
 	if hasChangelog {
 		d1 := time.Unix(x.ts(), 0).UTC().Format(time.RFC3339)
 		d2 := time.Unix(x.ts(), 0).UTC().Format(time.RFC3339)
-		x.addText("changelog.yaml", "- semver: 1.2.3\n  date: "+d1+"\n  packager: Verif <pkg@verif.invalid>\n  deb:\n    urgency: medium\n    distributions:\n      - stable\n  changes:\n    - commit: 2c499787328348f09ae1e8f03757c6483b9a938a\n      note: second note\n- semver: 1.2.2\n  date: "+d2+"\n  packager: Verif <pkg@verif.invalid>\n  changes:\n    - commit: 3c499787328348f09ae1e8f03757c6483b9a938b\n      note: first note\n", 0o644)
+		dateLine := "  date: " + d1 + "\n"
+		if g.Bool(0.3) {
+			dateLine = "" // an entry without a date
+			x.feats = append(x.feats, "changelog_undated_entry")
+		}
+		x.addText("changelog.yaml", "- semver: 1.2.3\n"+dateLine+"  packager: Verif <pkg@verif.invalid>\n  deb:\n    urgency: medium\n    distributions:\n      - stable\n  changes:\n    - commit: 2c499787328348f09ae1e8f03757c6483b9a938a\n      note: second note\n- semver: 1.2.2\n  date: "+d2+"\n  packager: Verif <pkg@verif.invalid>\n  changes:\n    - commit: 3c499787328348f09ae1e8f03757c6483b9a938b\n      note: first note\n", 0o644)
 		cfg["changelog"] = "@SRC@changelog.yaml"
 	}
 
